@@ -74,7 +74,7 @@ impl Check for C15 {
     }
     fn cases(&self, thorough: bool) -> usize {
         if thorough {
-            2_000_000
+            1_000_000
         } else {
             80_000
         }
